@@ -31,6 +31,18 @@ Definition premises (c : case) : bool :=
   wf_heapb false (k_schema c) h && seeds_liveb h (member_seeds (k_cas c)) && ids_okb h (c_next_id (k_cas c))
   && tc_heapb (k_schema c) h.
 
+(* A generated case is a SEQUENCE of calls (harness: `stages`): the stages of one sequence were run on ONE shared TypeSystem
+   object that gained features between the calls (a feature declared on a type, on its supertype, or pulled up to a
+   supertype with a definition identical to the one a subtype already has), each on a CAS of its own; the feature
+   structures of a stage may have been created with the Type objects of a second TypeSystem declaring the same types.
+   The model has no state besides its arguments and names types by name, so every stage is checked on its own against
+   the schema in force at that call: what an earlier call left behind in the implementation (a cached answer, a stale
+   feature list) or which Type object a structure carries must not show.  The theorems of TypecheckProofs.v hold for
+   every schema and CAS, hence for every stage.  A single call is a sequence of length one. *)
+Definition staged := list case.
+Definition check_staged (l : staged) : bool := forallb check_case l.
+Definition premises_staged (l : staged) : bool := forallb premises l.
+
 (* The schema of the fixed type system C_TSPEC of harness/props/C19.py, rendered once (scen.g_schema); C19.py re-renders it on
    every run and refers to this constant only when the text between the markers is identical to what it would emit. *)
 Definition schemaC : schema :=
@@ -56,4 +68,19 @@ Definition schemaC : schema :=
   mkTi "uima.cas.TOP"%string ["uima.cas.TOP"%string] [];
   mkTi "uima.tcas.Annotation"%string ["uima.tcas.Annotation"%string; "uima.cas.AnnotationBase"%string; "uima.cas.TOP"%string] [mkFd "begin"%string "begin"%string "uima.cas.Integer"%string None false; mkFd "end"%string "end"%string "uima.cas.Integer"%string None false; mkFd "sofa"%string "sofa"%string "uima.cas.Sofa"%string None false]]
 (* END schemaC *)
+.
+
+(* The built-in part (closure of uima.cas.FSArray, uima.cas.String, Sofa and Annotation) of the schemas of the sequence family
+   (S_BASE / S_POOL of C19.py), used under the same verbatim condition; the user types are rendered per call. *)
+Definition schemaSB : schema :=
+(* BEGIN schemaSB *)
+[mkTi "uima.cas.AnnotationBase"%string ["uima.cas.AnnotationBase"%string; "uima.cas.TOP"%string] [mkFd "sofa"%string "sofa"%string "uima.cas.Sofa"%string None false];
+  mkTi "uima.cas.ArrayBase"%string ["uima.cas.ArrayBase"%string; "uima.cas.TOP"%string] [mkFd "elements"%string "elements"%string "uima.cas.TOP"%string None true];
+  mkTi "uima.cas.FSArray"%string ["uima.cas.FSArray"%string; "uima.cas.ArrayBase"%string; "uima.cas.TOP"%string] [mkFd "elements"%string "elements"%string "uima.cas.TOP"%string None true];
+  mkTi "uima.cas.Integer"%string ["uima.cas.Integer"%string; "uima.cas.TOP"%string] [];
+  mkTi "uima.cas.Sofa"%string ["uima.cas.Sofa"%string; "uima.cas.TOP"%string] [mkFd "sofaNum"%string "sofaNum"%string "uima.cas.Integer"%string None false; mkFd "sofaID"%string "sofaID"%string "uima.cas.String"%string None false; mkFd "mimeType"%string "mimeType"%string "uima.cas.String"%string None false; mkFd "sofaArray"%string "sofaArray"%string "uima.cas.TOP"%string None true; mkFd "sofaString"%string "sofaString"%string "uima.cas.String"%string None false; mkFd "sofaURI"%string "sofaURI"%string "uima.cas.String"%string None false];
+  mkTi "uima.cas.String"%string ["uima.cas.String"%string; "uima.cas.TOP"%string] [];
+  mkTi "uima.cas.TOP"%string ["uima.cas.TOP"%string] [];
+  mkTi "uima.tcas.Annotation"%string ["uima.tcas.Annotation"%string; "uima.cas.AnnotationBase"%string; "uima.cas.TOP"%string] [mkFd "begin"%string "begin"%string "uima.cas.Integer"%string None false; mkFd "end"%string "end"%string "uima.cas.Integer"%string None false; mkFd "sofa"%string "sofa"%string "uima.cas.Sofa"%string None false]]
+(* END schemaSB *)
 .
